@@ -287,6 +287,7 @@ class CapiSpy:
             self.seen_inputs = [i.name for i in proto.graph.input]
             self.seen_inits = [i.name for i in proto.graph.initializer]
             r = self.orig(proto, target_version)
+            self.ret = r
             self.ok = True
             return r
 
@@ -364,7 +365,8 @@ def run_real(case: dict):
                 out["after_proto"] = None
             out["after_ir"] = m
     out.update(err=err, capi_called=spy.called, capi_ok=spy.ok, before_proto=before,
-               capi_seen=(getattr(spy, "seen_inputs", None), getattr(spy, "seen_inits", None)))
+               capi_seen=(getattr(spy, "seen_inputs", None), getattr(spy, "seen_inits", None)),
+               capi_ret=getattr(spy, "ret", None))
     return out
 
 
@@ -1018,6 +1020,61 @@ def check_cases(run, drv, cases, stats: Counter):
         stats["fallback_" + ("ok" if r["capi_ok"] else "failed")] += 1
         if any(len(t.dims) and int(np.prod(t.dims)) > 1000 for t in r["before_proto"].graph.initializer):
             stats["fallback_with_stripped_initializer"] += 1
+    # metadata stream: `_restore_metadata(original, converted)` on the successful C-API route
+    def flat_nodes(g, acc):
+        for n in g.node:
+            acc.append(n)
+            for a in n.attribute:
+                if a.type == 5:
+                    flat_nodes(a.g, acc)
+                elif a.type == 10:
+                    for sg in a.graphs:
+                        flat_nodes(sg, acc)
+        return acc
+
+    def props_tok(mp):
+        return ",".join(f"{p.key}={p.value}" for p in mp) or "-"
+
+    def node_items(tag, g):
+        out = []
+        for n in flat_nodes(g, []):
+            out += [tag + "N", n.name or "_", n.op_type, n.domain or "@", n.doc_string or "_", props_tok(n.metadata_props)]
+        return out
+
+    def value_items(tag, g):
+        out = []
+        vinfo = {v.name: v for v in g.value_info}
+        for i in g.input:
+            out += [tag + "V", i.name, i.doc_string or "_", props_tok(i.metadata_props)]
+        for n in flat_nodes(g, []):
+            for o in n.output:
+                if o:
+                    v = vinfo.get(o)
+                    out += [tag + "V", o, (v.doc_string if v is not None else "") or "_", props_tok(v.metadata_props) if v is not None else "-"]
+        return out
+
+    md_cases = [(c, r) for c, r in fb_cases if r["capi_ok"] and r.get("capi_ret") is not None]
+    md_lines = []
+    for c, r in md_cases:
+        og, cg = r["before_proto"].graph, r["capi_ret"].graph
+        md_lines.append(" ".join(["meta", "og=" + props_tok(og.metadata_props), "od=" + (og.doc_string or "_"),
+                                  "cg=" + props_tok(cg.metadata_props), "cd=" + (cg.doc_string or "_")]
+                                 + node_items("O", og) + value_items("O", og) + node_items("C", cg) + value_items("C", cg)))
+    for (c, r), mo in zip(md_cases, drv.ask(md_lines)):
+        ap = r["after_proto"].graph
+        parts = mo.split(";")
+        real_nodes = [f"N:{','.join(sorted(f'{p.key}={p.value}' for p in n.metadata_props)) or '-'}:{n.doc_string or '_'}" for n in flat_nodes(ap, [])]
+        real_g = f"G:{','.join(sorted(f'{p.key}={p.value}' for p in ap.metadata_props)) or '-'}:{ap.doc_string or '_'}"
+        real_in = [f"V:{','.join(sorted(f'{p.key}={p.value}' for p in i.metadata_props)) or '-'}:{i.doc_string or '_'}" for i in ap.input]
+        canon = lambda t: t.split(":")[0] + ":" + (",".join(sorted(t.split(":")[1].split(","))) if t.split(":")[1] != "-" else "-") + ":" + t.split(":")[2]  # noqa: E731
+        m_g = canon(parts[0]) if mo != "bad-op" else "bad-op"
+        m_nodes = [canon(p) for p in parts[1:] if p.startswith("N:")]
+        m_in = [canon(p) for p in parts[1:] if p.startswith("V:")][: len(real_in)]
+        stats["metadata_cases"] += 1
+        if any(p != "N:-:_" for p in real_nodes):
+            stats["metadata_cases_with_restored_node"] += 1
+        if (real_g, real_nodes, real_in) != (m_g, m_nodes, m_in):
+            tie.append((c, f"_restore_metadata: impl {real_g} {real_nodes} {real_in} ; model {m_g} {m_nodes} {m_in}"))
     # third stream: names of the values the adapters create (collect + first-unused-counter loop)
     import re as _re
 
@@ -1343,7 +1400,7 @@ def main(run: core.Run) -> None:
               "val_named_body_outputs_then_rewrite", "capi_ok_big_initializer_also_input",
               "fallback_ok", "fallback_failed", "fallback_with_stripped_initializer",
               "names_cases_with_new_values", "names_cases_with_val_names_in_source",
-              "imports_cases", "imports_cases_private_domain_via_function"]
+              "imports_cases", "imports_cases_private_domain_via_function", "metadata_cases_with_restored_node"]
     missing = [k for k in needed if stats[k] == 0]
     if missing and not run.violations:  # a behavioural difference is reported as such, never as exit 2
         raise core.Infra(f"generator degenerated: never produced {missing}")
